@@ -183,7 +183,8 @@ _MORE = {
     # attribution after round d
     ('mchap.application.baseclass', 'program.encode_sample_reads'): ['C03'],       # the read tensor and counts every likelihood is taken of
     ('mchap.application.baseclass', 'program.require_AFP'): ['C03'],                # which report fields switch the posterior summaries on
-    ('mchap.io.loci', '_merge_snps'): ['C06'],                                       # records of one position must share the reference base
+    ('mchap.io.loci', '_merge_snps'): ['C06'],
+    ('mchap.application.assemble', '_genotype_posterior_as_array'): ['C14'],      # GP of assemble: the retained trace's genotype frequencies by G-index                                       # records of one position must share the reference base
     ('mchap.application.baseclass', 'program.header'): ['C07', 'C08'],
     ('mchap.application.baseclass', 'program.header_contigs'): ['C07'],
     ('mchap.application.assemble', 'program.header_contigs'): ['C07'],
